@@ -75,7 +75,6 @@ type Gen struct {
 	queue []func() string // scripted continuation (capture toggle, contention for one offer)
 	alpha []uint32
 	Fresh bool   // histf: a fresh buffer per frame (default: one shared receive buffer)
-	Stale [2]int // when non-zero: generate against a handler that loaded a stale lease file (home bits, netfilter bits); IP source forced to 0
 }
 
 func NewGen(r *lib.Rand, c Cfg, level int) *Gen {
@@ -399,25 +398,19 @@ func cidTok(id *ident, macs []net.HardwareAddr) string {
 
 // History returns the op tokens of one history of the given depth.
 func (g *Gen) History(depth int) []string {
-	if g.Stale[0] != 0 {
-		g.sv = NewStaleServer(g.C, g.Stale[0], g.Stale[1])
-		size := uint32(1) << (32 - uint(g.Stale[0]))
-		base := g.C.HomeIP / size * size
-		g.alpha = append(g.alpha, base+1, base+size-2, base+size/2+5) // addresses of the stale (wider) home prefix
-	} else {
-		g.sv = NewServer(g.C)
-	}
+	g.sv = NewServer(g.C)
 	if !g.Fresh {
 		g.sv.Shared = make([]byte, 1514)
 	}
 	defer g.sv.Close()
+	return g.play(depth)
+}
+
+// play generates depth ops against the live server g.sv.
+func (g *Gen) play(depth int) []string {
 	var ops []string
 	for n := 0; n < depth; n++ {
 		tok := g.next()
-		if f := strings.Split(tok, ","); g.Stale[0] != 0 && len(f) == 10 {
-			f[8] = "00000000"
-			tok = strings.Join(f, ",")
-		}
 		ops = append(ops, tok)
 		_, rp := g.sv.Step(tok)
 		if rp != nil && g.cur != nil {
@@ -432,6 +425,105 @@ func (g *Gen) History(depth int) []string {
 	return ops
 }
 
+// ChangeOne returns configuration c with exactly one parameter changed (what, for the statistics).
+func ChangeOne(c Cfg, r *lib.Rand) (Cfg, string) {
+	n1, b1 := c.lan(false)
+	for {
+		d := c
+		what := ""
+		switch r.Intn(10) {
+		case 0:
+			return d, "nothing"
+		case 1:
+			d.Mode = c.Mode%3 + 1
+			what = "mode"
+		case 2:
+			d.DNS = c.DNS ^ 0x00000404
+			what = "dns"
+		case 3: // another router address inside the home LAN
+			d.RouterIP = n1 + 1 + uint32(r.Intn(int(b1-n1-1)))
+			what = "router"
+		case 4:
+			d.HomeBits = c.HomeBits - 1
+			what = "home-bits"
+		case 5:
+			d.NfBits = c.NfBits + 1
+			what = "netfilter-bits-longer"
+		case 6:
+			d.NfBits = c.NfBits - 1
+			what = "netfilter-bits-shorter"
+		case 7: // our own address (it is also the netfilter gateway)
+			d.HostIP = n1 + 1 + uint32(r.Intn(int(b1-n1-1)))
+			d.NfIP = d.HostIP
+			what = "host"
+		case 8:
+			d.RouterMAC = net.HardwareAddr{0x00, 0x66, 0x66, 0x66, 0x66, 0x67}
+			what = "router-mac"
+		default:
+			d.HomeBits = c.HomeBits + 1
+			what = "home-bits-longer"
+		}
+		// keep B a configuration (Config).New accepts and cfg_ok: distinct host/router inside the home LAN,
+		// netfilter prefix inside the home prefix and not longer than /30
+		h1, hb := d.lan(false)
+		if d.HostIP == d.RouterIP || d.HostIP <= h1 || d.HostIP >= hb || d.RouterIP <= h1 || d.RouterIP >= hb ||
+			d.NfBits < d.HomeBits || d.NfBits > 30 || d.HomeBits < 16 {
+			continue
+		}
+		n2, b2 := d.lan(true)
+		if d.HostIP <= n2 || d.HostIP >= b2 {
+			continue
+		}
+		if what == "host" && d.HostIP == c.HostIP || what == "router" && d.RouterIP == c.RouterIP {
+			continue
+		}
+		return d, what
+	}
+}
+
+// Restart generates one restart case: opsA on configuration A, then B = A with one parameter changed
+// started on A's lease file, opsB (restored and new clients, captured and not).
+func (g *Gen) Restart(depthA, depthB int) (Cfg, string, []string, []string) {
+	g.sv = NewServer(g.C)
+	g.sv.Shared = make([]byte, 1514)
+	// run 1: mostly lease acquisition so that there is something to restore
+	for i := 0; i < 3; i++ {
+		id := g.ids[g.R.Intn(len(g.ids))]
+		g.queue = append(g.queue, func() string { return g.discover(id, true, nil) }, func() string { return g.selectOfferDev(id, false) })
+	}
+	opsA := g.play(depthA)
+	g.queue = nil
+	file := g.sv.CloseKeep()
+	cB, what := ChangeOne(g.C, g.R)
+	g.C = cB
+	g.alpha = append(g.alpha, cB.HostIP, cB.RouterIP)
+	g.sv = NewServerFile(cB, file)
+	g.sv.Shared = make([]byte, 1514)
+	defer g.sv.Close()
+	// run 2 begins with the old clients coming back (renew / reboot / discover), captured or not
+	for i := 0; i < 2; i++ {
+		id := g.ids[g.R.Intn(len(g.ids))]
+		if g.R.Chance(40) {
+			g.queue = append(g.queue, func() string { return "C," + hxmac(g.macs[id.mac]) })
+		}
+		g.queue = append(g.queue, func() string {
+			switch g.R.Intn(3) {
+			case 0:
+				m := g.msg('R', id)
+				m.Ciaddr, m.Src = id.ack, id.ack
+				return m.Token()
+			case 1:
+				m := g.msg('R', id)
+				m.Req = p32(id.ack)
+				return m.Token()
+			}
+			return g.discover(id, true, nil)
+		}, func() string { return g.selectOffer(id) })
+	}
+	opsB := g.play(depthB)
+	return cB, what, opsA, opsB
+}
+
 // Generate produces the histories of a run: nCfg configurations x modes, generated (live) and then
 // replayed on a fresh server by the registered runner, in parallel workers.
 func Generate(r *lib.Run, level int, modes []int, nCfg int) {
@@ -444,8 +536,8 @@ func Generate(r *lib.Run, level int, modes []int, nCfg int) {
 		seed  uint64
 		cfg   Cfg
 		depth int
-		stale [2]int
-		fresh bool
+		restart bool
+		fresh   bool
 	}
 	jobs := make(chan job, 64)
 	done := make(chan bool)
@@ -454,19 +546,21 @@ func Generate(r *lib.Run, level int, modes []int, nCfg int) {
 		go func() {
 			for j := range jobs {
 				g := NewGen(lib.NewRand(j.seed), j.cfg, level)
-				g.Stale = j.stale
 				g.Fresh = j.fresh
+				if j.restart {
+					cB, what, opsA, opsB := g.Restart(3+j.depth%8, 4+j.depth%14)
+					args := append(append(j.cfg.Tokens(), cB.Tokens()...), opsA...)
+					args = append(append(args, "|"), opsB...)
+					r.Do("restart", args...)
+					r.Stat("class.restart."+what, 1)
+					continue
+				}
 				ops := g.History(j.depth)
 				args := append(j.cfg.Tokens(), ops...)
 				kind := "hist"
 				if j.fresh {
 					kind = "histf"
 					r.Stat("class.fresh-buffers", 1)
-				}
-				if j.stale[0] != 0 {
-					kind = "stale"
-					args = append(append(j.cfg.Tokens(), strconv.Itoa(j.stale[0]), strconv.Itoa(j.stale[1])), ops...)
-					r.Stat("class.stale-file", 1)
 				}
 				obs := r.Do(kind, args...)
 				steps := strings.Fields(strings.SplitN(obs, " | ", 2)[0])
@@ -489,11 +583,8 @@ func Generate(r *lib.Run, level int, modes []int, nCfg int) {
 			depth = 20 + rng.Intn(40)
 		}
 		j := job{seed: rng.U64(), cfg: StdCfg(rng.Intn(nCfg), modes[rng.Intn(len(modes))]), depth: depth}
-		if level > 1 && i%20 == 7 { // a lease file of an earlier run with shorter prefixes is still there
-			j.stale = [2]int{j.cfg.HomeBits - 1 - rng.Intn(4), j.cfg.NfBits - rng.Intn(3)}
-			if j.stale[1] < j.stale[0] {
-				j.stale[1] = j.stale[0]
-			}
+		if level > 1 && i%6 == 3 { // a handler restarted on the lease file of an earlier configuration
+			j.restart = true
 		} else if i%4 == 1 { // a quarter of the histories with a buffer of its own per frame
 			j.fresh = true
 		}
@@ -531,7 +622,7 @@ func Corpus(r *lib.Run) {
 		}
 		for _, l := range strings.Split(string(b), "\n") {
 			f := strings.Fields(l)
-			if len(f) > 11 && (f[0] == "hist" || f[0] == "histf" || f[0] == "stale") {
+			if len(f) > 11 && (f[0] == "hist" || f[0] == "histf" || f[0] == "restart") {
 				r.Do(f[0], f[1:]...)
 				r.Stat("class.corpus", 1)
 			}
